@@ -60,7 +60,9 @@ class C05(Machine):
                    "trailing_isolated_node", "directed",
                    "link_attributes_present", "write_cut_fired",
                    "write_cut_acknowledged", "write_cut_raised",
-                   "load_of_cut_file_raised", "format_chain")
+                   "load_of_cut_file_raised", "format_chain",
+                   "sparse_with_stored_zeros",
+                   "source_perturbed_after_derivation")
     faults_na = ("message_loss", "message_duplication", "partition",
                  "process_crash", "clock_skew", "bit_flips_after_save")
     real_vs_stub = {"real": ["Network/SpatialNetwork/GeoNetwork/"
@@ -106,6 +108,7 @@ class C05(Machine):
             op = {"op": k}
             if k == "from_sparse":
                 op["fmt"] = o.choice(("csc", "csr", "coo", "lil"))
+                op["stored_zeros"] = o.random() < 0.4
             elif k in ("from_edge_list", "set_edge_list"):
                 op["with_n"] = o.random() < 0.6
             elif k == "save_load":
@@ -147,6 +150,7 @@ class C05(Machine):
         import igraph
         from pyunicorn.core.network import Network
         R = Result()
+        self._R = R
         cfg, g = run["config"], run["graph"]
         self.cls = cls = cfg["class"]
         n, directed = g["n"], g["directed"]
@@ -238,6 +242,15 @@ class C05(Machine):
                 self._compare(R, new, m, tag, exact=exact)
                 R.trace.append((step, tag, C.digest_of(
                     np.asarray(new.sp_A.todense()))))
+                if new is not net and not R.violations:
+                    # the new object must not share state with its source:
+                    # scale the source's weights in place, through the
+                    # public property, and look at the new object again
+                    out = C.call(self._scale_weights, net)
+                    if not isinstance(out, C.Raised):
+                        R.probe("source_perturbed_after_derivation")
+                        self._compare(R, new, m, tag + "+source-changed",
+                                      exact=exact)
                 # the chain continues from the new object only if it is
                 # faithful (otherwise later steps would blame the wrong op)
                 if R.violations:
@@ -247,6 +260,12 @@ class C05(Machine):
         finally:
             shutil.rmtree(base, ignore_errors=True)
         return R.as_dict()
+
+    @staticmethod
+    def _scale_weights(net):
+        w = net.node_weights
+        w *= 2.0                      # in place on the array the getter gave
+        net.node_weights = w
 
     @staticmethod
     def _last_linked(A):
@@ -301,7 +320,18 @@ class C05(Machine):
         if k == "from_sparse":
             conv = {"csc": sp.csc_matrix, "csr": sp.csr_matrix,
                     "coo": sp.coo_matrix, "lil": sp.lil_matrix}[op["fmt"]]
-            return self._build(m, k, conv(np.array(net.adjacency)))
+            Ad = np.array(net.adjacency)
+            if op.get("stored_zeros") and op["fmt"] in ("csc", "csr", "coo"):
+                # a sparse matrix that stores some explicit zeros (a link
+                # removed by assigning 0, thresholded stored values)
+                nn = Ad.shape[0]
+                rows, cols = np.nonzero(1 - np.eye(nn, dtype=int))
+                S = sp.coo_matrix((Ad[rows, cols], (rows, cols)),
+                                  shape=(nn, nn)).asformat(op["fmt"])
+                if S.nnz > Ad.sum():
+                    self._R.probe("sparse_with_stored_zeros")
+                return self._build(m, k, S)
+            return self._build(m, k, conv(Ad))
         if k == "from_edge_list":
             e = edges_of(np.array(net.adjacency), m.directed)
             if len(e) == 0:
